@@ -37,4 +37,56 @@ pub(crate) mod verif_rig_style {
         }
         v
     }
+
+    /// Template description usable from other modules (TemplatePart itself is private to style.rs).
+    #[derive(Clone, Copy)]
+    pub(crate) enum RigPart {
+        Lit(&'static str),
+        Key(&'static str),
+        /// key, width, align (0 left, 1 center, 2 right), truncate
+        KeyW(&'static str, u16, u8, bool),
+        NewLine,
+    }
+
+    pub(crate) fn rig_align(a: u8) -> Alignment {
+        match a {
+            0 => Alignment::Left,
+            1 => Alignment::Center,
+            _ => Alignment::Right,
+        }
+    }
+
+    pub(crate) fn rig_parts(spec: &[RigPart]) -> Vec<TemplatePart> {
+        let mut v = Vec::with_capacity(8);
+        let mut i = 0;
+        while i < spec.len() {
+            v.push(match spec[i] {
+                RigPart::Lit(s) => literal(s),
+                RigPart::Key(k) => placeholder(k, Alignment::Left, None, false),
+                RigPart::KeyW(k, w, a, t) => placeholder(k, rig_align(a), Some(w), t),
+                RigPart::NewLine => TemplatePart::NewLine,
+            });
+            i += 1;
+        }
+        v
+    }
+
+    /// Style with the given template description, ticks "A".."C" (final "C"), progress chars "#>-".
+    pub(crate) fn rig_style_spec(spec: &[RigPart]) -> ProgressStyle {
+        let mut pc: Vec<Box<str>> = Vec::with_capacity(4);
+        pc.push("#".into());
+        pc.push(">".into());
+        pc.push("-".into());
+        rig_style(rig_parts(spec), ascii_set(3, 0), pc, 1)
+    }
+
+    pub(crate) fn rig_style_empty() -> ProgressStyle {
+        rig_style(Vec::new(), ascii_set(2, 0), ascii_set(2, 0), 1)
+    }
+
+    /// Panicking stand-in for `ProgressStyle::format_state` in harnesses whose bars are hidden: rendering must not be
+    /// reached at all there (if it is, the harness fails), and CBMC is spared the formatting machinery.
+    pub(crate) fn no_format_state(_s: &ProgressStyle, _st: &ProgressState, _l: &mut Vec<LineType>, _w: u16) {
+        panic!("verif: format_state reached although the draw target is hidden")
+    }
 }
